@@ -209,3 +209,120 @@ def h_generate_keys(c, version, code, nkeys):
     if out.exc is None and c.get(s, "decryptor") is None:
         c.ensure("no_keys_means_not_decrypted", c.get(s, "can_decrypt") is False)
     c.cover("returned" if out.exc is None else "raised")
+
+
+# ---- C03, the composition step: every function main.run() can enter OUTSIDE a `try ... except Exception` barrier has an exception-freedom
+# ---- contract; every function that is allowed to raise is only reachable BEHIND such a barrier ---------------------------------------
+
+_S, _QS = "tlexport.session.Session", "tlexport.quic.quic_session.QuicSession"
+CG_HINTS = {"tlexport.main.run": {"session": _S, "quic_session": _QS}, "tlexport.main.handle_packet": {"session": _S},
+            "tlexport.main.handle_quic_packet": {"session": _QS, "new_session": _QS},
+            _S + ".decrypt": {"self.builder": "tlexport.output_builder.OutputBuilder"},
+            _QS + ".build_output": {"output_builder": "tlexport.quic.quic_output_builder.QUICOutputbuilder"},
+            _QS + ".decrypt_packet": {"decryptor": "tlexport.quic.quic_decryptor.QuicDecryptor"},
+            _QS + ".handle_crypto_frame": {"self.tls_session": "tlexport.quic.quic_tls_parser.QuicTlsSession"},
+            _S + ".handle_tls_application_record": {"self.decryptor": "tlexport.decryptor.Decryptor"},
+            _S + ".handle_tls_13_application_record": {"self.decryptor": "tlexport.decryptor.Decryptor"},
+            _S + ".handle_handshake_finished": {"self.decryptor": "tlexport.decryptor.Decryptor"}}
+# Edges removed from the UNPROTECTED graph, each with the discharged obligation that justifies it:
+#   handle_quic_packet calls handle_frame outside its try only for the Version Negotiation pseudo frame it has just built, and for that frame
+#   handle_frame only appends to the output buffer (quic.buffered_packets[VERSION_NEG].version_negotiation_frame_only_buffered) - the CRYPTO
+#   path (TLS parsing, key derivation) is entered only from decrypt_packet's barrier.
+CG_CUT = {(_QS + ".handle_frame", _QS + ".handle_crypto_frame"): "quic.buffered_packets"}
+# exception-freedom contract of every function reachable outside a barrier: harness that lists it and ensures no_raise (its preconditions are
+# what the caller's contract establishes); 'log:' = only formats log text (the effect of logging is dropped, argument evaluation is covered
+# by the harnesses of the callers that execute it)
+CG_COVER = {
+    "tlexport.main.run": "run.packet_branches", "tlexport.main.arg_parser_init": "ports.argparse_defaults", "tlexport.main.get_port_map": "ports.get_port_map",
+    "tlexport.main.handle_packet": "demux.tls_routing", "tlexport.main.handle_quic_packet": "robust.quic_entry",
+    "tlexport.checksums.calculate_checksum_tcp": "cksum.verdict", "tlexport.checksums.calculate_checksum_udp": "cksum.verdict",
+    "tlexport.checksums.ones_complement_checksum": "cksum.ones_complement",
+    "tlexport.dpkt_dsb.Reader.__init__": "container.reader", "tlexport.keylog_reader.Key.__init__": "keylog.any_line_is_safe",
+    "tlexport.keylog_reader.get_key_from_line": "keylog.any_line_is_safe", "tlexport.keylog_reader.get_keys_from_string": "keylog.unbounded.file_text",
+    "tlexport.keylog_reader.read_keylog_from_file": "assumed: exits the process when the -s file does not exist (documented behaviour), otherwise get_keys_from_string",
+    "tlexport.log.set_logger": "log:", "tlexport.log.LogFilter.__init__": "log:", "tlexport.packet.Packet.get_params": "log:",
+    "tlexport.packet.Packet.__init__": "assumed: dpkt.ethernet.Ethernet(buf) may raise on a truncated frame - NOT covered (dpkt's parser; the capture is assumed to hold whole frames)",
+    "tlexport.output_builder.OutputBuilder.__init__": "ports.builder_init", "tlexport.output_builder.OutputBuilder.build": "tcp_out.build",
+    "tlexport.output_builder.OutputBuilder.build_ack_handshake": "tcp_out.handshake", "tlexport.output_builder.OutputBuilder.build_client_packet": "tcp_out.data_packets",
+    "tlexport.output_builder.OutputBuilder.build_server_packet": "tcp_out.data_packets",
+    "tlexport.quic.quic_decryptor.QuicDecryptor.__init__": "quic.keystate.install", "tlexport.quic.quic_dissector.extract_quic_packet": "robust.quic_dissector",
+    "tlexport.quic.quic_dissector.get_header_type": "robust.quic_entry", "tlexport.quic.quic_frame.Frame.__init__": "quic_out.build",
+    "tlexport.quic.quic_frame.PseudoVersionNegotiationFrame.__init__": "quic_out.build",
+    "tlexport.quic.quic_key_generation.dev_initial_keys": "keys.quic_initial", "tlexport.quic.quic_key_generation.make_info": "keys.quic_make_info",
+    "tlexport.quic.quic_key_generation.key_update": "keys.quic_key_update",
+    "tlexport.quic.quic_key_generation.dev_quic_keys": "quic.keystate.install",
+    "tlexport.quic.quic_output_builder.QUICOutputbuilder.__init__": "ports.builder_init", "tlexport.quic.quic_output_builder.QUICOutputbuilder.build": "quic_out.build",
+    _QS + ".__init__": "demux.fresh_instances_are_separate", _QS + ".binary_to_ip": "quic_out.build_output", _QS + ".build_output": "quic_out.build_output",
+    _QS + ".check_key_epoch": "quic.key_epoch", _QS + ".decrypt_packet": "quic.keystate.lookup", _QS + ".handle_frame": "quic.handle_frame",
+    _QS + ".handle_packet": "quic.handle_packet", _QS + ".handle_quic_packet": "quic.buffered_packets", _QS + ".matches_session_dgram": "demux.matches_session",
+    _QS + ".packet_isserver": "quic.handle_packet", _QS + ".set_initial_decryptor": "keys.quic_initial_installed", _QS + ".set_packet_number_spaces": "demux.fresh_instances_are_separate",
+    _QS + ".set_server_client_address": "ports.roles", _QS + ".set_tls_decryptors": "quic.keystate.install",
+    "tlexport.quic.quic_tls_parser.QuicTlsSession.__init__": "demux.fresh_instances_are_separate",
+    _S + ".__init__": "demux.fresh_instances_are_separate", _S + ".binary_to_ip": "tcp_out.build", _S + ".decrypt": "ports.threading",
+    _S + ".extract_client_buf": "framing.unbounded", _S + ".extract_server_buf": "framing.unbounded", _S + ".get_tls_records": "robust.tls_record",
+    _S + ".handle_packet": "framing.handle_packet", _S + ".matches_session": "demux.matches_session", _S + ".set_client_and_server_ports": "ports.roles",
+    "tlexport.tlsrecord.TlsRecord.__init__": "robust.tls_record",
+}
+# functions that are ALLOWED to raise (truncated or hostile input, failing primitives): each must stay behind a barrier
+CG_MAY_RAISE = [
+    "tlexport.decryptor.Decryptor.decrypt", "tlexport.decryptor.Decryptor.decrypt_tls13_aead", "tlexport.decryptor.Decryptor.decrypt_tls12_aead",
+    "tlexport.decryptor.Decryptor.decrypt_tls12_block_cipher", "tlexport.decryptor.Decryptor.decrypt_last_block_iv_cbc", "tlexport.decryptor.Decryptor.decrypt_tls12_chacha20",
+    "tlexport.decryptor.Decryptor.decrypt_generic_stream_cipher", "tlexport.decryptor.Decryptor.decrypt_tls13_stream_cipher", "tlexport.decryptor.Decryptor.inflate",
+    "tlexport.decryptor.Decryptor.__init__", "tlexport.decryptor.Decryptor.parse_keys",
+    "tlexport.key_derivator.dev_tls_13_keys", "tlexport.key_derivator.dev_tls_12_keys", "tlexport.key_derivator.dev_tls_10_11_keys", "tlexport.key_derivator.dev_ssl_30_keys",
+    _S + ".generate_keys", _S + ".handle_tls_record", _S + ".handle_tls_handshake_record", _S + ".handle_tls_server_hello", _S + ".handle_tls_client_hello",
+    _S + ".handle_tls_application_record", _S + ".handle_tls_13_application_record", _S + ".handle_decrypted_tls_13_handshake_record", _S + ".handle_handshake_finished",
+    "tlexport.quic.quic_frame.parse_frames", "tlexport.quic.quic_decode.decode_variable_length_int", "tlexport.quic.quic_decode.get_variable_length_int_length",
+    "tlexport.quic.quic_decryptor.QuicDecryptor.decrypt", "tlexport.quic.quic_dissector.remove_header_protection", "tlexport.quic.quic_key_generation.make_hp_mask",
+    "tlexport.quic.quic_key_generation.make_chacha_hp_mask", _QS + ".get_full_packet_number", _QS + ".handle_crypto_frame",
+    "tlexport.quic.quic_tls_parser.QuicTlsSession.update_session", "tlexport.quic.quic_tls_parser.QuicTlsSession.handle_buffer",
+    "tlexport.quic.quic_tls_parser.QuicTlsSession.handle_record", "tlexport.quic.quic_tls_parser.QuicTlsSession.handle_client_hello",
+    "tlexport.quic.quic_tls_parser.QuicTlsSession.handle_server_hello", "tlexport.quic.quic_tls_parser.QuicTlsSession.handle_encrypted_extensions",
+    "tlexport.quic.quic_tls_parser.QuicTlsSession.get_extensions", "tlexport.quic.quic_tls_parser.QuicTlsSession.get_quic_transport_parameters",
+]
+
+
+@harness(["C03"], "robust.call_graph", functions=[])
+def h_call_graph(c):
+    """COMPOSITION obligation for 'the run never fails' (syntactic, conservative; the call graph is rebuilt from the real sources on
+    every run): (1) every function main.run() can enter outside every `try ... except Exception` has an exception-freedom contract
+    (a harness that lists it and ensures no_raise) or is a stated assumption; (2) every function that is ALLOWED to raise stays behind
+    such a barrier - narrowing or removing a barrier, or calling one of these functions from unprotected code, fails here; (3) a NEW
+    function that becomes reachable outside a barrier and has no contract is reported as undecided (a gap in the composition, not a
+    verdict about the code)."""
+    if c.native:
+        return
+    from pyvc import api, callgraph
+    from pyvc.core import Unsupported
+    g = callgraph.Graph(c.I.program.repo if hasattr(c.I, "program") else None, CG_HINTS) if False else callgraph.Graph(_repo_root(c), CG_HINTS)
+    U, P, unresolved = g.partition("tlexport.main.run", cut_edges=set(CG_CUT))
+    names = {h.name: h for h in api.REGISTRY["harness"]}
+    for (a, b), hname in CG_CUT.items():
+        c.ensure("cut_edge_is_justified_by_a_registered_harness[%s->%s]" % (a.split(".")[-1], b.split(".")[-1]), hname in names, kind="frame")
+    for f in sorted(CG_MAY_RAISE):
+        c.ensure("may_raise_only_behind_a_barrier[%s]" % f.replace("tlexport.", ""), f not in U, kind="frame")
+    missing = []
+    for f in sorted(U):
+        cov = CG_COVER.get(f)
+        if f in CG_MAY_RAISE:
+            continue                # already reported above
+        if cov is None:
+            missing.append(f)
+            continue
+        if cov.startswith("assumed:") or cov.startswith("log:"):
+            c.ensure("unprotected_function_is_a_stated_assumption[%s]" % f.replace("tlexport.", ""), True, kind="frame")
+            continue
+        h = names.get(cov)
+        c.ensure("unprotected_function_has_an_exception_freedom_contract[%s]" % f.replace("tlexport.", ""), h is not None, kind="frame")
+    c.ensure("unresolved_calls_are_the_known_ones", set(unresolved) <= {"tlexport.session.Session.generate_keys", "tlexport.quic.quic_frame.parse_frames"}, kind="frame")
+    c.cover("graph_built")
+    if missing:
+        raise Unsupported("functions reachable outside every barrier without an exception-freedom contract (composition gap): %s" % ", ".join(missing))
+
+
+h_call_graph.must_cover = ["graph_built"]
+
+
+def _repo_root(c):
+    import os
+    return os.environ.get("TLEXPORT_REPO", "/repo")
